@@ -128,6 +128,9 @@ impl Buildpack for TestBuildpack {
             lb.slice(libcnb::data::launch::Slice { path_globs: vec!["c".to_string()] });
             r = r.launch(lb.build());
         }
+        if b["store"] == "empty" {
+            r = r.store(Store::default());
+        }
         if b["store"] == "rich" {
             // store metadata assembled from HashMaps (C20)
             let inner: std::collections::HashMap<String, i64> = (0..6).map(|i| (format!("n{i}"), i)).collect();
